@@ -1,6 +1,295 @@
-(** Proofs about the ABI encoder of Base/Abi.v: injectivity. (C05) *)
+(** Proofs about the ABI encoder of Base/Abi.v.  Main results (C05; reused by C07):
+      enc_prefix_injective : typed t v -> typed t v' -> enc v ++ r = enc v' ++ r' -> v = v' /\ r = r'
+      abi_enc_injective    : typed t v -> typed t v' -> enc v = enc v' -> v = v'
+      enc_args_injective   : the same for argument lists (Forall2 typed ts vs)
+    Also: word / be are injective on their range ([word_inj], [be_val_be]), [typed_is_dyn].
+    The offsets written in the heads play no role in the proof: every encoding is self-delimiting
+    (that is what the [r], [r'] generalisation says), so the tail decomposes without them. *)
 From Coq Require Import List ZArith Bool Lia.
 From Coq Require Import Strings.Byte.
 From Paloma Require Import Base.Abi.
 Import ListNotations.
 Open Scope Z_scope.
+
+(** ---- bytes and big-endian numbers ---- *)
+
+Lemma Z_of_byte_range : forall b, 0 <= Z_of_byte b < 256.
+Proof.
+  intros b. unfold Z_of_byte. pose proof (Byte.to_N_bounded b) as H. lia.
+Qed.
+
+Lemma Z_of_byte_of_Z : forall z, Z_of_byte (byte_of_Z z) = z mod 256.
+Proof.
+  intros z. unfold byte_of_Z, Z_of_byte.
+  assert (Hr : 0 <= z mod 256 < 256) by (apply Z.mod_pos_bound; lia).
+  destruct (Byte.of_N (Z.to_N (z mod 256))) as [b|] eqn:E.
+  - apply Byte.to_of_N in E. rewrite E. rewrite Z2N.id; lia.
+  - apply Byte.of_N_None_iff in E. lia.
+Qed.
+
+Lemma byte_of_Z_of_byte : forall b, byte_of_Z (Z_of_byte b) = b.
+Proof.
+  intros b. unfold byte_of_Z. pose proof (Z_of_byte_range b) as Hr.
+  rewrite Z.mod_small by lia. unfold Z_of_byte. rewrite N2Z.id. now rewrite Byte.of_to_N.
+Qed.
+
+Lemma bytes_of_Zs_of_bytes : forall l, bytes_of_Zs (Zs_of_bytes l) = l.
+Proof.
+  induction l as [|b r IH]; simpl; [reflexivity|]. now rewrite byte_of_Z_of_byte, IH.
+Qed.
+
+Lemma be_acc_app : forall k z acc, be_acc k z acc = be_acc k z [] ++ acc.
+Proof.
+  induction k as [|k IH]; intros z acc; simpl; [reflexivity|].
+  rewrite IH. rewrite (IH (z / 256) [byte_of_Z z]). now rewrite <- app_assoc.
+Qed.
+
+Lemma be_snoc : forall k z, be (S k) z = be k (z / 256) ++ [byte_of_Z z].
+Proof. intros k z. unfold be. simpl. apply be_acc_app. Qed.
+
+Lemma be_length : forall k z, length (be k z) = k.
+Proof.
+  induction k as [|k IH]; intros z; [reflexivity|].
+  rewrite be_snoc, app_length, IH. simpl. lia.
+Qed.
+
+Lemma be_val_snoc : forall l b, be_val (l ++ [b]) = be_val l * 256 + Z_of_byte b.
+Proof. intros l b. unfold be_val. now rewrite fold_left_app. Qed.
+
+Lemma be_val_be : forall k z, be_val (be k z) = z mod 256 ^ Z.of_nat k.
+Proof.
+  induction k as [|k IH]; intros z.
+  - simpl. now rewrite Z.mod_1_r.
+  - rewrite be_snoc, be_val_snoc, IH, Z_of_byte_of_Z.
+    rewrite Nat2Z.inj_succ, Z.pow_succ_r by lia.
+    assert (Hp : 0 < 256 ^ Z.of_nat k) by (apply Z.pow_pos_nonneg; lia).
+    rewrite Z.rem_mul_r by lia. lia.
+Qed.
+
+Lemma be_val_range : forall l, 0 <= be_val l < 256 ^ Z.of_nat (length l).
+Proof.
+  induction l as [|b r IH] using rev_ind.
+  - simpl. unfold be_val. simpl. lia.
+  - rewrite be_val_snoc, app_length. simpl length.
+    replace (Z.of_nat (length r + 1)) with (Z.succ (Z.of_nat (length r))) by lia.
+    rewrite Z.pow_succ_r by lia. pose proof (Z_of_byte_range b). lia.
+Qed.
+
+Lemma word_length : forall z, length (word z) = 32%nat.
+Proof. intros z. apply be_length. Qed.
+
+Lemma two256_eq : two256 = 256 ^ Z.of_nat 32.
+Proof. reflexivity. Qed.
+
+Lemma be_val_word : forall z, 0 <= z < two256 -> be_val (word z) = z.
+Proof.
+  intros z Hz. unfold word. rewrite be_val_be. rewrite <- two256_eq. apply Z.mod_small. exact Hz.
+Qed.
+
+Lemma word_inj : forall z z', 0 <= z < two256 -> 0 <= z' < two256 -> word z = word z' -> z = z'.
+Proof.
+  intros z z' Hz Hz' E. rewrite <- (be_val_word z Hz), <- (be_val_word z' Hz'). now rewrite E.
+Qed.
+
+Lemma u256_range : forall z, 0 <= u256 z < two256.
+Proof. intros z. unfold u256. apply Z.mod_pos_bound. reflexivity. Qed.
+
+(** ---- list plumbing ---- *)
+
+Lemma app_eq_len : forall (A : Type) (a a' r r' : list A),
+  length a = length a' -> a ++ r = a' ++ r' -> a = a' /\ r = r'.
+Proof.
+  intros A a. induction a as [|x a IH]; intros a' r r' Hl E; destruct a' as [|y a']; simpl in *; try discriminate.
+  - now split.
+  - injection E as -> E. injection Hl as Hl. destruct (IH a' r r' Hl E) as [-> ->]. now split.
+Qed.
+
+Lemma word_prefix : forall z z' r r', 0 <= z < two256 -> 0 <= z' < two256 ->
+  word z ++ r = word z' ++ r' -> z = z' /\ r = r'.
+Proof.
+  intros z z' r r' Hz Hz' E.
+  apply app_eq_len in E; [| now rewrite !word_length].
+  destruct E as [E ->]. split; [now apply word_inj | reflexivity].
+Qed.
+
+(** ---- the induction principle for nested types ---- *)
+
+Fixpoint abity_ind' (P : abity -> Prop)
+  (HW : P TWord) (HB : P TBytes) (HA : forall t, P t -> P (TArr t))
+  (HT : forall ts, Forall P ts -> P (TTuple ts)) (t : abity) : P t :=
+  match t with
+  | TWord => HW
+  | TBytes => HB
+  | TArr t' => HA t' (abity_ind' P HW HB HA HT t')
+  | TTuple ts =>
+      HT ts ((fix go (ts : list abity) : Forall P ts :=
+                match ts with
+                | [] => Forall_nil P
+                | t :: r => Forall_cons t (abity_ind' P HW HB HA HT t) (go r)
+                end) ts)
+  end.
+
+(** typing of element lists, unfolded *)
+Definition typed_all (t : abity) (vs : list abival) : Prop := Forall (typed t) vs.
+Definition typed_all2 (ts : list abity) (vs : list abival) : Prop := Forall2 typed ts vs.
+
+Lemma typed_arr : forall t vs, typed (TArr t) (VArr vs) <-> Z.of_nat (length vs) < two256 /\ Forall (typed t) vs.
+Proof.
+  intros t vs. cbn [typed]. split; intros [Hl H]; (split; [exact Hl|]); clear Hl.
+  - induction vs as [|v r IH]; [constructor|]. destruct H as [Hv Hr]. constructor; [exact Hv | exact (IH Hr)].
+  - induction vs as [|v r IH]; [exact I|]. inversion H as [|? ? Hv Hr]; subst. split; [exact Hv | exact (IH Hr)].
+Qed.
+
+Lemma typed_tuple : forall ts vs, typed (TTuple ts) (VTuple vs) <-> Forall2 typed ts vs.
+Proof.
+  intros ts. cbn [typed]. induction ts as [|t tr IH]; intros vs; destruct vs as [|v vr]; split; intros H.
+  - constructor.
+  - exact I.
+  - contradiction.
+  - inversion H.
+  - contradiction.
+  - inversion H.
+  - destruct H as [Hv Hr]. constructor; [exact Hv | apply IH; exact Hr].
+  - inversion H as [|? ? ? ? Hv Hr]; subst. split; [exact Hv | apply IH; exact Hr].
+Qed.
+
+(** the dynamic flag of a typed value is that of its type *)
+Lemma typed_is_dyn : forall t v, typed t v -> is_dyn v = tdyn t.
+Proof.
+  induction t as [| | t IH | ts IH] using abity_ind'; intros v Hv; destruct v; try contradiction; try reflexivity.
+  apply typed_tuple in Hv. simpl.
+  revert vs Hv. induction IH as [|t tr Ht Htr IHr]; intros vs Hv; inversion Hv; subst; simpl; [reflexivity|].
+  f_equal; [now apply Ht | now apply IHr].
+Qed.
+
+(** ---- layout: heads then tails, component-wise injective ---- *)
+Opaque word.
+Arguments enc : simpl nomatch.
+
+(** [pinj v v']: the encodings of v and v' are distinguishable even when followed by junk. *)
+Definition pinj (v v' : abival) : Prop :=
+  forall r r', enc v ++ r = enc v' ++ r' -> v = v' /\ r = r'.
+
+Definition comps (vs : list abival) : list (bool * list byte) := map (fun v => (is_dyn v, enc v)) vs.
+
+(** pass 1 over the heads: static components are equal, and what follows the heads is equal *)
+Lemma heads_inj : forall vs vs', Forall2 (fun v v' => is_dyn v = is_dyn v' /\ pinj v v') vs vs' ->
+  forall off off' x x', heads off (comps vs) ++ x = heads off' (comps vs') ++ x' ->
+  Forall2 (fun v v' => is_dyn v = false -> v = v') vs vs' /\ x = x'.
+Proof.
+  intros vs vs' H. induction H as [|v v' r r' [Hd Hp] Hr IH]; intros off off' x x' E.
+  - simpl in E. split; [constructor | exact E].
+  - simpl in E. rewrite <- Hd in E. destruct (is_dyn v) eqn:Dv; simpl in E.
+    + rewrite <- !app_assoc in E.
+      apply app_eq_len in E; [| now rewrite !word_length]. destruct E as [_ E].
+      apply IH in E. destruct E as [F ->]. split; [|reflexivity]. constructor; [intros; congruence | exact F].
+    + rewrite <- !app_assoc in E. apply Hp in E. destruct E as [-> E].
+      apply IH in E. destruct E as [F ->]. split; [|reflexivity]. constructor; [intros; reflexivity | exact F].
+Qed.
+
+(** pass 2 over the tails: dynamic components are equal, and the rest is equal *)
+Lemma tails_inj : forall vs vs', Forall2 (fun v v' => is_dyn v = is_dyn v' /\ pinj v v') vs vs' ->
+  forall x x', tails (comps vs) ++ x = tails (comps vs') ++ x' ->
+  Forall2 (fun v v' => is_dyn v = true -> v = v') vs vs' /\ x = x'.
+Proof.
+  intros vs vs' H. induction H as [|v v' r r' [Hd Hp] Hr IH]; intros x x' E.
+  - simpl in E. split; [constructor | exact E].
+  - unfold tails in E. simpl in E. rewrite <- Hd in E. destruct (is_dyn v) eqn:Dv; simpl in E.
+    + rewrite <- !app_assoc in E. apply Hp in E. destruct E as [-> E].
+      apply IH in E. destruct E as [F ->]. split; [|reflexivity]. constructor; [intros; reflexivity | exact F].
+    + simpl in E. apply IH in E. destruct E as [F ->]. split; [|reflexivity]. constructor; [intros; congruence | exact F].
+Qed.
+
+Lemma layout_inj : forall vs vs', Forall2 (fun v v' => is_dyn v = is_dyn v' /\ pinj v v') vs vs' ->
+  forall x x', layout (comps vs) ++ x = layout (comps vs') ++ x' -> vs = vs' /\ x = x'.
+Proof.
+  intros vs vs' H x x' E. unfold layout in E. rewrite <- !app_assoc in E.
+  destruct (heads_inj vs vs' H _ _ _ _ E) as [Fs E2].
+  destruct (tails_inj vs vs' H _ _ E2) as [Fd ->]. split; [|reflexivity].
+  clear E E2 H. revert Fd. induction Fs as [|v v' r r' Hs Hr IH]; intros Fd; [reflexivity|].
+  inversion Fd; subst. f_equal; [| now apply IH].
+  destruct (is_dyn v) eqn:D; [now apply H2 | now apply Hs].
+Qed.
+
+(** ---- the main induction ---- *)
+
+Lemma Forall2_same_type : forall (P : abity -> Prop) ts vs vs',
+  Forall P ts -> Forall2 typed ts vs -> Forall2 typed ts vs' ->
+  (forall t v v', P t -> typed t v -> typed t v' -> is_dyn v = is_dyn v' /\ pinj v v') ->
+  Forall2 (fun v v' => is_dyn v = is_dyn v' /\ pinj v v') vs vs'.
+Proof.
+  intros P ts vs vs' HP H1. revert vs' HP. induction H1 as [|t v tr vr Hv Hr IH]; intros vs' HP H2 K;
+    inversion H2; subst; [constructor|]. inversion HP; subst.
+  constructor; [now apply (K t) | now apply IH].
+Qed.
+
+Lemma Forall_same_type : forall t vs vs',
+  Forall (typed t) vs -> Forall (typed t) vs' -> length vs = length vs' ->
+  (forall v v', typed t v -> typed t v' -> is_dyn v = is_dyn v' /\ pinj v v') ->
+  Forall2 (fun v v' => is_dyn v = is_dyn v' /\ pinj v v') vs vs'.
+Proof.
+  intros t vs. induction vs as [|v r IH]; intros vs' H1 H2 Hl K; destruct vs' as [|v' r']; try discriminate; [constructor|].
+  inversion H1; subst. inversion H2; subst. injection Hl as Hl.
+  constructor; [now apply K | now apply IH].
+Qed.
+
+Lemma blen_app_zeros : forall (b : list byte), length (b ++ zeros (pad32 (length b))) = (length b + pad32 (length b))%nat.
+Proof. intros b. rewrite app_length. unfold zeros. now rewrite repeat_length. Qed.
+
+Theorem enc_prefix_injective : forall t v v', typed t v -> typed t v' -> pinj v v'.
+Proof.
+  induction t as [| | t IH | ts IH] using abity_ind'; intros v v' Hv Hv'; destruct v, v'; try contradiction;
+    intros r r' E.
+  - (* word *)
+    simpl in E. apply word_prefix in E; try assumption. destruct E as [-> ->]. now split.
+  - (* bytes *)
+    simpl in Hv, Hv'. simpl in E. rewrite <- !app_assoc in E.
+    apply word_prefix in E; [| unfold blen in *; lia | unfold blen in *; lia].
+    destruct E as [Hl E]. unfold blen in Hl. apply Nat2Z.inj in Hl.
+    apply app_eq_len in E; [| exact Hl]. destruct E as [-> E].
+    apply app_eq_len in E; [| reflexivity]. destruct E as [_ ->]. now split.
+  - (* array *)
+    apply typed_arr in Hv. apply typed_arr in Hv'. destruct Hv as [Hl Hv]. destruct Hv' as [Hl' Hv'].
+    simpl in E. rewrite <- !app_assoc in E.
+    apply word_prefix in E; [| lia | lia]. destruct E as [Hn E]. apply Nat2Z.inj in Hn.
+    fold (comps vs) in E. fold (comps vs0) in E.
+    apply layout_inj in E.
+    + destruct E as [-> ->]. now split.
+    + apply (Forall_same_type t); try assumption.
+      intros a a' Ha Ha'. split; [now rewrite (typed_is_dyn t a Ha), (typed_is_dyn t a' Ha') | now apply IH].
+  - (* tuple *)
+    apply typed_tuple in Hv. apply typed_tuple in Hv'.
+    simpl in E. fold (comps vs) in E. fold (comps vs0) in E.
+    apply layout_inj in E.
+    + destruct E as [-> ->]. now split.
+    + apply (Forall2_same_type (fun t => forall v v', typed t v -> typed t v' -> pinj v v') ts); try assumption.
+      intros t a a' Ht Ha Ha'. split; [now rewrite (typed_is_dyn t a Ha), (typed_is_dyn t a' Ha') | now apply Ht].
+Qed.
+
+Theorem abi_enc_injective : forall t v v', typed t v -> typed t v' -> enc v = enc v' -> v = v'.
+Proof.
+  intros t v v' Hv Hv' E.
+  destruct (enc_prefix_injective t v v' Hv Hv' [] []) as [H _]; [now rewrite !app_nil_r | exact H].
+Qed.
+
+Theorem enc_args_injective : forall ts vs vs', Forall2 typed ts vs -> Forall2 typed ts vs' ->
+  enc_args vs = enc_args vs' -> vs = vs'.
+Proof.
+  intros ts vs vs' H H' E. unfold enc_args in E.
+  assert (VTuple vs = VTuple vs') as X.
+  { apply (abi_enc_injective (TTuple ts)); [now apply typed_tuple | now apply typed_tuple | exact E]. }
+  now injection X.
+Qed.
+
+(** Non-vacuity: a dynamic-in-dynamic value and its encoding (the bytes are those go-ethereum
+    produces for ((address,bytes)[], uint256) = ([(1, 0xAABB)], 7)). *)
+Example enc_sample :
+  Zs_of_bytes (enc_args [VArr [VTuple [VWord 1; VBytes (bytes_of_Zs [170; 187])]]; VWord 7])
+  = Zs_of_bytes (word 64 ++ word 7 ++ word 1 ++ word 32 ++ word 1 ++ word 64 ++ word 2
+                 ++ bytes_of_Zs [170; 187] ++ zeros 30).
+Proof. vm_compute. reflexivity. Qed.
+
+Example enc_sample_typed :
+  typed (TTuple [TArr (TTuple [TWord; TBytes]); TWord])
+        (VTuple [VArr [VTuple [VWord 1; VBytes (bytes_of_Zs [170; 187])]]; VWord 7]).
+Proof. vm_compute. repeat split; discriminate. Qed.
